@@ -1395,7 +1395,7 @@ static bool isSameScalarType(type_t t1, type_t t2)
 {
     if (t1.get_kind() == REF || t1.get_kind() == CONSTANT || t1.get_kind() == SYSTEM_META) {
         return isSameScalarType(t1[0], t2);
-    } else if (t2.get_kind() == EF || t2.get_kind() == CONSTANT || t2.get_kind() == SYSTEM_META) {
+    } else if (t2.get_kind() == REF || t2.get_kind() == CONSTANT || t2.get_kind() == SYSTEM_META) {
         return isSameScalarType(t1, t2[0]);
     } else if (t1.get_kind() == LABEL && t2.get_kind() == LABEL) {
         return t1.get_label(0) == t2.get_label(0) && isSameScalarType(t1[0], t2[0]);
